@@ -452,6 +452,22 @@ def _probes():
             (lambda A, f=f_, kw=kw_: f(A, max_iter=6, return_diagnostics=True, **kw)), lambda c: [Q(c["Sq"])])
     add("NewtonSchulz.compute[residual histories]",
         lambda A: s.NewtonSchulzPseudoinverse(max_iter=4, tol=0.0, compute_residuals=True).compute(A), lambda c: [Q(c["A"])])
+    # the same entry points on operands with more than a thousand entries (size-switched code paths)
+    add("quat_matmat(dense,dense)[large]", u.quat_matmat, lambda c: [Q(c["Abig"]), Q(c["Bbig"])])
+    add("quat_matmat(sparse,dense)[large]", u.quat_matmat, lambda c: [S(c["Abig"]), Q(c["Bbig"])])
+    add("quat_matmat(dense,sparse)[large]", u.quat_matmat, lambda c: [Q(c["Abig"]), S(c["Bbig"])])
+    add("quat_frobenius_norm[large]", u.quat_frobenius_norm, lambda c: [Q(c["Abig"])])
+    add("induced_matrix_norm_1[large]", u.induced_matrix_norm_1, lambda c: [Q(c["Abig"])])
+    add("induced_matrix_norm_inf[large]", u.induced_matrix_norm_inf, lambda c: [Q(c["Abig"])])
+    add("matrix_norm(2)[large]", lambda A: u.matrix_norm(A, 2), lambda c: [Q(c["Abig"])])
+    add("quat_hermitian[large]", u.quat_hermitian, lambda c: [Q(c["Abig"])])
+    add("real_expand[large]", u.real_expand, lambda c: [Q(c["Abig"])])
+    add("rank[large]", u.rank, lambda c: [Q(c["Abig"])])
+    add("qr_qua[large]", qs.qr_qua, lambda c: [Q(c["Abig"])])
+    add("classical_qsvd[large]", lambda A: qs.classical_qsvd(A, 2), lambda c: [Q(c["Abig"])])
+    add("quaternion_lu[large]", lu.quaternion_lu, lambda c: [Q(c["Abig"])])
+    add("hessenbergize[large]", hb.hessenbergize, lambda c: [Q(c["Sqbig"])])
+    add("NewtonSchulz.compute[large]", lambda A: s.NewtonSchulzPseudoinverse(max_iter=3, tol=0.0).compute(A), lambda c: [Q(c["Abig"])])
     add("tensor_unfold", lambda T: tn.tensor_unfold(T, 1), lambda c: [Q(c["T3"])])
     add("tensor_fold", lambda M, shp: tn.tensor_fold(M, 1, shp), lambda c: [tn.tensor_unfold(Q(c["T3"]), 1).copy(), tuple(c["T3"].shape[:3])])
     add("tensor_frobenius_norm", tn.tensor_frobenius_norm, lambda c: [Q(c["T3"])])
@@ -483,7 +499,7 @@ def probes():
     return _PROBE_CACHE["p"]
 
 
-N_PROBES = 99   # upper bound used by the generator; indices are taken modulo the real table length
+N_PROBES = 114   # upper bound used by the generator; indices are taken modulo the real table length
 
 
 @st.composite
@@ -543,7 +559,11 @@ def mutation_cases(draw, tier):
         psf = np.abs(draw(gen.qarray(kh, kw, "int"))[0][..., 0]) + np.abs(draw(gen.qarray(kh, kw, "sparse"))[0][..., 1])
         psf[kh // 2, kw // 2] += 1.0
         psf = psf / 16.0
-    return {"probe": draw(st.integers(0, N_PROBES - 1)), "struct": struct, "layout": draw(st.sampled_from(["C", "F", "strided"])), "A": A, "B": B, "Sq": Sq, "H": H, "H2": H, "Sys": Sys, "b": b,
+    big = gen.long_qarray
+    Abig = draw(big(*draw(st.sampled_from([(40, 30), (33, 33), (70, 20)])), "generic"))[0]
+    Bbig = draw(big(Abig.shape[1], draw(st.sampled_from([2, 35])), "generic"))[0]
+    Sqbig = draw(big(34, 34, "generic"))[0]
+    return {"Abig": Abig, "Bbig": Bbig, "Sqbig": Sqbig, "probe": draw(st.integers(0, N_PROBES - 1)), "struct": struct, "layout": draw(st.sampled_from(["C", "F", "strided"])), "A": A, "B": B, "Sq": Sq, "H": H, "H2": H, "Sys": Sys, "b": b,
             "Tall": np.ascontiguousarray(Tall), "T3": T3, "img": img, "psf": psf, "seed": draw(gen.seeds())}
 
 
@@ -561,6 +581,8 @@ def _variant(case):
     c["Tall"] = 0.5 * case["Tall"][::-1].copy() + 0.25
     c["T3"] = case["T3"][::-1].copy() * 0.5
     c["img"] = case["img"][::-1].copy() * 0.5 + 0.125
+    for k_ in ("Abig", "Bbig", "Sqbig"):
+        c[k_] = 0.5 * case[k_][::-1].copy() + 0.25
     return c
 
 
@@ -619,6 +641,14 @@ def _deviation(r1, r2):
     if len(a) != len(b) or any(x.shape != y.shape for x, y in zip(a, b)):
         return float("inf")
     dev = 0.0
+    # a component that consists of rounding noise only (e.g. the recorded asymmetry ||AX - (AX)^H|| ~ 1e-16 next to
+    # residuals of size 100) has no stable digits: deviations are measured against at least 1e-10 of the largest
+    # magnitude in the whole result
+    glob = 0.0
+    for x in a + b:
+        f_ = np.isfinite(x)
+        if f_.any():
+            glob = max(glob, float(np.max(np.abs(x[f_]))))
     for x, y in zip(a, b):
         if x.size == 0:
             continue
@@ -626,7 +656,7 @@ def _deviation(r1, r2):
         if not np.array_equal(np.isfinite(x), np.isfinite(y)):
             return float("inf")
         if fin.any():
-            scale = max(float(np.max(np.abs(x[fin]))), float(np.max(np.abs(y[fin]))), 1e-300)
+            scale = max(float(np.max(np.abs(x[fin]))), float(np.max(np.abs(y[fin]))), 1e-10 * glob, 1e-300)
             dev = max(dev, float(np.max(np.abs(x[fin] - y[fin]))) / scale)
     return dev
 
